@@ -71,12 +71,42 @@ class C15(Property):
     assumptions = ["node identity is lang.Repr(node); the value returned is the value stored by the latest Add of that repr",
                    "operations are sequential (the RWMutex makes them atomic)"]
 
+    def regen(self, ctx):
+        import c15consts
+        return c15consts.regen()
+
     def prepare(self, ctx):
         ok, res = vlib.go_build("c15")
         self.bin = res if ok else None
         return ok, ("" if ok else res)
 
+    def extra(self, ctx):
+        """Direct monitor: the empty-ring error path of the two users of the ring (white-box, the public
+        constructors exit on a zero total weight): every operation must fail with ErrNoRedisNode /
+        the cluster's errNotFound, never panic or succeed."""
+        fails = []
+        for pkg in ("kv", "cache"):
+            rel = "core/stores/%s/verif_c15_test.go" % pkg
+            rc, out, res = vlib.go_test_overlay("./core/stores/%s" % pkg,
+                                                {rel: "%s/overlay/%s/verif_c15_test.go" % (vlib.HARNESS, pkg)},
+                                                run="TestVerifC15Empty", cases=[], tag="c15" + pkg, timeout=600)
+            if rc != 0 or len(res) != 1:
+                raise ExecError("c15 empty-ring executor (%s) rc=%s: %s" % (pkg, rc, out[-1500:]))
+            bad = [k for k in ("get", "set", "del", "incr") if not res[0].get(k)]
+            if bad:
+                fails.append({"what": "%s cluster over an empty ring: %s did not report the no-node error" % (pkg, bad),
+                              "replay": res[0]})
+        return fails
+
     def corpus(self):
+        return self._ring_corpus() + [
+            self._cluster("cache", [100, 100], ["a", "b", "c", "user:1", "user:2", "order#77", "x", "y"]),
+            self._cluster("cache", [100, 1, 0, 50], ["k%d" % i for i in range(24)]),
+            self._cluster("kv", [100], ["a", "b", "c"]),
+            self._cluster("kv", [10, 100, 100], ["k%d" % i for i in range(24)]),
+        ]
+
+    def _ring_corpus(self):
         P = [S("x"), S("key2"), S("key60"), S("key80"), S("key157"), I(42)] + [S("key%d" % i) for i in range(20)]
         return [
             # Remove of a node with fewer replicas whose never-added index string equals a live key
@@ -134,7 +164,19 @@ class C15(Property):
                 else:
                     ops.append(["remove", k])
             cases.append({"hash": hk, "mod": mod, "r": R, "nodes": nodes, "ops": ops, "probes": probes(rng, 20)})
+        # users of the ring: 2-4 node clusters on miniredis through cache.New and kv.NewStore
+        for j in range(max(8, n // 8)):
+            k = rng.randint(2, 4)
+            ws = [rng.choice([100, 100, 50, 10, 1, 0, 150]) for _ in range(k)]
+            if sum(max(w, 0) for w in ws) <= 0:
+                ws[0] = 100
+            cases.append(self._cluster(("cache", "kv")[j % 2], ws,
+                                       ["k%d" % rng.randrange(10 ** 6) for _ in range(24)]))
         return cases
+
+    def _cluster(self, kind, weights, keys):
+        return {"kind": kind, "weights": weights, "hash": "murmur", "mod": 0, "r": 0, "nodes": [], "ops": [],
+                "probes": [S(k) for k in keys]}
 
     def execute(self, cases, ctx):
         rc, out, res = vlib.go_run(self.bin, cases, tag="c15", timeout=600)
@@ -146,6 +188,12 @@ class C15(Property):
         return res
 
     # ---- rendering ---------------------------------------------------------
+    def _ops(self, case):
+        """cluster cases: cache.New / kv.NewStore add node i with AddWithWeight(node_i, weight_i), in order"""
+        if case.get("kind"):
+            return [["addw", i, w] for i, w in enumerate(case["weights"])]
+        return case["ops"]
+
     def _ids(self, obs):
         ids = {}
         for r in obs["reprs"]:
@@ -169,7 +217,7 @@ class C15(Property):
             rows.append("(%d, %s)" % (ids[r], clist(["%d" % rank[int(h)] for h in obs["vh"][k]])))
         node = lambda k: "(mkNode %d %d)" % (ids[obs["reprs"][k]], k)
         ops = []
-        for o in case["ops"]:
+        for o in self._ops(case):
             if o[0] == "add":
                 ops.append("OAdd %s" % node(o[1]))
             elif o[0] == "addr":
@@ -180,8 +228,9 @@ class C15(Property):
                 ops.append("ORemove %s" % node(o[1]))
         ps = clist(["(%d, %s)" % (rank[int(a)], b) for a, b in obs["ph"]])
         gets = clist([clist([cz(g) for g in row]) for row in obs["gets"]])
-        return "mkCase %s %s %s %s %s %s" % (cz(obs["r"]), clist(rows), clist(ops), ps, gets,
-                                             "true" if case.get("strict") else "false")
+        return "mkCase %s %s %s %s %s %s %s" % (cz(obs["r"]), clist(rows), clist(ops), ps, gets,
+                                                "true" if case.get("kind") else "false",
+                                                "true" if case.get("strict") else "false")
 
     # ---- known finding: collision-bucket-insertion-order ---------------------------------
     def _core_ok(self, case, obs):
@@ -227,7 +276,7 @@ class C15(Property):
         an owner of the successor slot (so membership, none-iff-empty, no-panic and removed-never-returned all
         hold): the only way prop_ok can then fail is the choice inside a slot shared by several nodes, i.e. the
         order clauses (same node map => same answers; keys move only to/from the operation's node)."""
-        if self._cf(obs):
+        if case.get("kind") or self._cf(obs):
             return None
         if not self._core_ok(case, obs):
             return None
@@ -268,6 +317,8 @@ class C15(Property):
 
     def nontrivial(self, case, obs):
         gets = obs["gets"]
+        if case.get("kind"):
+            return len(set(g for g in gets[0] if g >= 0)) >= 2
         changed = any(a != b for g0, g1 in zip(gets, gets[1:]) for a, b in zip(g0, g1) if a >= 0 and b >= 0)
         two = any(len(set(g for g in row if g >= 0)) >= 2 for row in gets)
         seen, readd = set(), False
@@ -278,6 +329,9 @@ class C15(Property):
         return changed and two and readd
 
     def features(self, case, obs):
+        if case.get("kind"):
+            return ["cluster=" + case["kind"], "cluster_nodes=%d" % len(case["weights"]),
+                    "collision_free" if self._cf(obs) else "collisions"]
         fs = ["hash=" + case["hash"] + ("%d" % case["mod"] if case["mod"] else ""), "R=%d" % obs["r"],
               "collision_free" if self._cf(obs) else "collisions", "nodes=%d" % len(case["nodes"]),
               "ops<=%d" % (10 * (1 + len(case["ops"]) // 10))]
@@ -293,6 +347,9 @@ class C15(Property):
         return fs
 
     def describe_failure(self, case, obs):
+        if case.get("kind"):
+            return ("%s cluster: a key was read / written / deleted on a server other than the one the ring "
+                    "designates (rows: Get, Set, multi-key Del; -3 = none or several servers)" % case["kind"])
         if any(g == -2 for row in obs["gets"] for g in row):
             return "Get panicked (keys empty while the ring is not)"
         return ("Get returned a non-member / none with members present, or (collision-free universe) the assignment "
